@@ -1,4 +1,4 @@
-(* C09 — proofs about the model of the REPAIRED tree (fx = true): for every valid
+(* C09 — proofs about the model of the REPAIRED tree (fx = fy = true): for every valid
    schema, every static setting and every event sequence the state invariant holds,
    and every clause of the specification holds on the trace the model produces. *)
 From KG Require Import Prelude C09_Model C09_Spec.
@@ -82,7 +82,7 @@ Proof. destruct l; simpl; try reflexivity; try apply andb_true_iff; try split; l
 Definition lim_of (d : detail) : lim :=
   match d with DMI m => LMI m | DTB q b => LTB q b | DNone => LInf end.
 
-(* an item as the repaired Sync keeps it: of the schema's type, within [0, global] *)
+(* an item as the repaired Sync keeps it: of the schema's type, within [0, global] of the CURRENT schema *)
 Definition item_ok (c : config) (it : item) : Prop :=
   match ck c, idet it with
   | KMI, DMI m => 0 <= m <= g1 c
@@ -90,33 +90,42 @@ Definition item_ok (c : config) (it : item) : Prop :=
   | _, _ => False
   end.
 
-Definition inner_ok (c : config) (maxrt : Z) (i : inner) (it : item) : Prop :=
+(* the limiter behind the remote wrapper is bounded by the item it was synced from;
+   only the schema's type matters here, not its limits *)
+Definition inner_ok (k : kind) (maxrt : Z) (i : inner) (it : item) : Prop :=
   match iw i with
   | WEmpty => istr it <> SCount /\ il i = lim_of (idet it) /\ iun i = false /\ iover i = false
-  | WMI => istr it = SCount /\ ck c = KMI /\
+  | WMI => istr it = SCount /\ k = KMI /\
            exists m n, idet it = DMI m /\ imax i = m /\ irsv i = reserve_of true m /\
-                       il i = LMI n /\ 0 <= n <= g1 c /\ ilast i <= maxrt
-  | WTB => istr it = SCount /\ ck c = KTB /\ iover i = false /\
+                       il i = LMI n /\ 0 <= n <= m /\ ilast i <= maxrt /\ 0 <= ifb i
+  | WTB => istr it = SCount /\ k = KTB /\ iover i = false /\
            exists q b q' b', idet it = DTB q b /\ iqps i = q /\ iburst i = b /\
-                             il i = LTB q' b' /\ 0 <= q' <= g1 c /\ 0 <= b' <= g2 c /\
-                             (iun i = false -> q' = q /\ b' = b)
+                             il i = LTB q' b' /\ 0 <= q' <= q /\ 0 <= b' <= b /\
+                             (iun i = false -> q' = q /\ b' = b) /\ 0 <= ifb i
   end.
 
 Definition wrap_ok (c : config) (maxrt : Z) (w : rwrap) : Prop :=
   match rin w with
   | None => rcfg w = None
-  | Some i => exists it, rcfg w = Some it /\ item_ok c it /\ inner_ok c maxrt i it
+  | Some i => exists it, rcfg w = Some it /\ item_ok c it /\ inner_ok (ck c) maxrt i it
   end.
 
-Definition Inv (c : config) (maxrt : Z) (s : state) : Prop :=
-  crashed s = false /\
+Definition Inv (k : kind) (maxrt : Z) (s : state) : Prop :=
+  crashed s = false /\ valid_cfg (scfg s) /\ ck (scfg s) = k /\
   (enable_global (sstr s) = false -> rem s = None) /\
-  match rem s with None => True | Some w => wrap_ok c maxrt w end.
+  match rem s with None => True | Some w => wrap_ok (scfg s) maxrt w end.
 
-Lemma inner_ok_mono c m m' i it : m <= m' -> inner_ok c m i it -> inner_ok c m' i it.
+(* the events of a history: schema updates carry valid limits (the API server validates them) *)
+Definition ev_ok (k : kind) (e : ev) : Prop :=
+  match e with
+  | ESchema a b g h => valid_cfg {| ck := k; l1 := a; l2 := b; g1 := g; g2 := h |}
+  | _ => True
+  end.
+
+Lemma inner_ok_mono k m m' i it : m <= m' -> inner_ok k m i it -> inner_ok k m' i it.
 Proof.
   unfold inner_ok. intros Hm H. destruct (iw i); auto.
-  destruct H as (H1 & H2 & mm & n & H3 & H4 & H5 & H6 & H7 & H8).
+  destruct H as (H1 & H2 & mm & n & H3 & H4 & H5 & H6 & H7 & H8 & H9).
   repeat split; auto. exists mm, n. repeat split; auto; lia.
 Qed.
 
@@ -126,9 +135,9 @@ Proof.
   destruct H as (it & H1 & H2 & H3). exists it. repeat split; auto. eapply inner_ok_mono; eauto.
 Qed.
 
-Lemma Inv_mono c m m' s : m <= m' -> Inv c m s -> Inv c m' s.
+Lemma Inv_mono k m m' s : m <= m' -> Inv k m s -> Inv k m' s.
 Proof.
-  unfold Inv. intros Hm (H1 & H2 & H3). repeat split; auto.
+  unfold Inv. intros Hm (H1 & H2 & H3 & H4 & H5). repeat split; auto.
   destruct (rem s); auto. eapply wrap_ok_mono; eauto.
 Qed.
 
@@ -144,6 +153,13 @@ Qed.
 Lemma sanitize_none c it0 : sanitize c it0 = None -> granted c (idet it0) = None.
 Proof. unfold sanitize, granted. destruct (ck c), (idet it0); intros H; try discriminate; reflexivity. Qed.
 
+(* an item that was fine under a schema of the same type is never rejected *)
+Lemma sanitize_same_kind c0 c it : ck c0 = ck c -> item_ok c0 it -> exists it', sanitize c it = Some it'.
+Proof.
+  unfold item_ok, sanitize. intros K H. rewrite <- K.
+  destruct (ck c0); destruct (idet it); try contradiction; eexists; reflexivity.
+Qed.
+
 Lemma new_lim_ok c it : valid_cfg c -> item_ok c it -> new_lim (idet it) = lim_of (idet it).
 Proof.
   unfold valid_cfg, item_ok. intros V H.
@@ -153,7 +169,7 @@ Proof.
 Qed.
 
 Lemma new_inner_ok c maxrt it : valid_cfg c -> item_ok c it -> 0 <= maxrt ->
-  exists i, new_inner true it = Some i /\ inner_ok c maxrt i it.
+  exists i, new_inner true true it = Some i /\ inner_ok (ck c) maxrt i it.
 Proof.
   intros V H Hm. unfold new_inner. rewrite (new_lim_ok c it V H).
   destruct (strategy_eqb (istr it) SCount) eqn:S; simpl.
@@ -172,15 +188,16 @@ Proof.
     intros E. rewrite E in S. discriminate.
 Qed.
 
-Lemma inner_resize_ok c maxrt i ito it : valid_cfg c ->
-  item_ok c ito -> inner_ok c maxrt i ito -> item_ok c it -> istr ito = istr it ->
+(* the resize path of Sync; the limiter may have been synced under earlier limits [c0] of the same type *)
+Lemma inner_resize_ok c0 c maxrt i ito it : valid_cfg c -> ck c0 = ck c ->
+  item_ok c0 ito -> inner_ok (ck c) maxrt i ito -> item_ok c it -> istr ito = istr it ->
   match idet it with
-  | DMI m => inner_ok c maxrt (inner_resize true i (wrapu32 m) 0) it
-  | DTB q b => inner_ok c maxrt (inner_resize true i (wrapu32 q) (wrapu32 b)) it
+  | DMI m => inner_ok (ck c) maxrt (inner_resize true true i (wrapu32 m) 0) it
+  | DTB q b => inner_ok (ck c) maxrt (inner_resize true true i (wrapu32 q) (wrapu32 b)) it
   | DNone => True
   end.
 Proof.
-  intros V Ho Hi Hn Hs. unfold valid_cfg, item_ok, inner_ok, inner_resize in *.
+  intros V K0 Ho Hi Hn Hs. unfold valid_cfg, item_ok, inner_ok, inner_resize in *. rewrite K0 in Ho.
   destruct (iw i) eqn:W.
   - (* emptyGlobalWrapper *)
     destruct Hi as (H1 & H2 & H3 & H4).
@@ -189,44 +206,52 @@ Proof.
     + rewrite wrapu32_id31 by lia. repeat split; auto. congruence.
     + rewrite !wrapu32_id31 by lia. repeat split; auto. congruence.
   - (* maxInflightWrapper *)
-    destruct Hi as (H1 & H2 & m0 & n & H3 & H4 & H5 & H6 & H7 & H8).
+    destruct Hi as (H1 & H2 & m0 & n & H3 & H4 & H5 & H6 & H7 & H8 & H9).
     rewrite H2 in *. destruct (idet it) eqn:D; try contradiction.
     unfold mi_resize. simpl. rewrite W.
     rewrite wrapu32_id31 by lia. rewrite wrap32_id31 by lia.
     pose proof (reserve_range m ltac:(lia)) as R.
     repeat split; auto; [congruence|].
     destruct (iun i).
-    + exists m, n. repeat split; auto; lia.
+    + set (v := if m <? ifb i then m else ifb i).
+      assert (0 <= v <= m) by (subst v; destruct (m <? ifb i) eqn:E; lia).
+      exists m, v. rewrite H6. simpl. rewrite wrapu32_id31 by lia. repeat split; auto; lia.
     + exists m, (reserve_of true m). rewrite H6. simpl. rewrite wrapu32_id31 by lia.
       repeat split; auto; lia.
   - (* tokenBucketWrapper *)
-    destruct Hi as (H1 & H2 & H3 & q0 & b0 & q' & b' & H4 & H5 & H6 & H7 & H8 & H9 & H10).
+    destruct Hi as (H1 & H2 & H3 & q0 & b0 & q' & b' & H4 & H5 & H6 & H7 & H8 & H9 & H10 & H11).
     rewrite H2 in *. destruct (idet it) eqn:D; try contradiction.
     unfold tb_resize. simpl. rewrite W.
     rewrite !wrapu32_id31 by lia.
     repeat split; auto; [congruence|].
     destruct (iun i) eqn:U.
-    + exists q, b, q', b'. repeat split; auto; try lia; discriminate.
+    + set (v := if q <? ifb i then q else ifb i). set (u := if b <? ifb i then b else ifb i).
+      assert (0 <= v <= q /\ 0 <= u <= b) by (subst v u; destruct (q <? ifb i) eqn:E; destruct (b <? ifb i) eqn:E'; lia).
+      exists q, b, v, u. rewrite H7. simpl. rewrite !wrapu32_id31 by lia.
+      repeat split; auto; try lia; discriminate.
     + exists q, b, q, b. rewrite H7. simpl. repeat split; auto; lia.
 Qed.
 
-Lemma rw_sync_ok c maxrt w it0 : valid_cfg c -> 0 <= maxrt -> wrap_ok c maxrt w ->
-  exists w', rw_sync true c w it0 = Some w' /\ wrap_ok c maxrt w' /\
+(* remoteWrapper.Sync under the limits [c]; the wrapper may have been kept under earlier limits [c0] *)
+Lemma rw_sync_ok c0 c maxrt w it0 : valid_cfg c -> ck c0 = ck c -> 0 <= maxrt -> wrap_ok c0 maxrt w ->
+  exists w', rw_sync true true c w it0 = Some w' /\
     match sanitize c it0 with
     | None => w' = w
-    | Some it => rcfg w' = Some it /\ rin w' <> None
+    | Some it => wrap_ok c maxrt w' /\ rcfg w' = Some it /\ rin w' <> None
     end.
 Proof.
-  intros V Hm Hw. unfold rw_sync.
+  intros V K0 Hm Hw. unfold rw_sync.
   destruct (sanitize c it0) as [it|] eqn:S; [|exists w; auto].
   destruct (sanitize_ok c it0 it V S) as (Hit & _ & _).
   destruct (rcfg_is w it) eqn:E.
-  { exists w. split; [reflexivity|]. split; [assumption|].
+  { exists w. split; [reflexivity|].
     unfold rcfg_is in E. destruct (rcfg w) as [x|] eqn:R; [|discriminate].
-    apply item_eqb_eq in E. subst x. split; [reflexivity|].
-    unfold wrap_ok in Hw. destruct (rin w); [discriminate|]. congruence. }
+    apply item_eqb_eq in E. subst x.
+    unfold wrap_ok in *. destruct (rin w) as [i|]; [|congruence].
+    destruct Hw as (it' & R' & _ & Hi). rewrite R in R'. inversion R'; subst it'.
+    split; [|split; [reflexivity|discriminate]]. exists it. rewrite <- K0. auto. }
   destruct (new_inner_ok c maxrt it V Hit Hm) as (i' & Hn & Hi').
-  assert (Rec : exists w', match new_inner true it with
+  assert (Rec : exists w', match new_inner true true it with
                            | Some i => Some {| rin := Some i; rcfg := Some it |}
                            | None => None end = Some w' /\ wrap_ok c maxrt w' /\ rcfg w' = Some it /\ rin w' <> None).
   { rewrite Hn. eexists. split; [reflexivity|]. unfold wrap_ok. simpl.
@@ -236,33 +261,33 @@ Proof.
     [exact Rec|].
   apply orb_false_iff in B. destruct B as [_ B]. apply negb_false_iff, strategy_eqb_eq in B.
   unfold wrap_ok in Hw. rewrite Ri in Hw. destruct Hw as (ito & Ro & Hito & Hio).
-  unfold rcfg_strategy in B. rewrite Ro in B.
-  pose proof (inner_resize_ok c maxrt i ito it V Hito Hio Hit B) as HR.
+  unfold rcfg_strategy in B. rewrite Ro in B. rewrite K0 in Hio.
+  pose proof (inner_resize_ok c0 c maxrt i ito it V K0 Hito Hio Hit B) as HR.
   unfold item_ok in Hit.
   destruct (idet it) eqn:D; destruct (ck c) eqn:K; try contradiction.
   - assert (G : (if g1 c <? m then g1 c else m) = m) by (destruct (g1 c <? m) eqn:G; lia).
     rewrite G. eexists. split; [reflexivity|]. unfold wrap_ok. simpl.
-    split; [exists it; repeat split; auto; unfold item_ok; rewrite D, K; auto|].
+    split; [exists it; repeat split; auto; [unfold item_ok; rewrite D, K; auto|rewrite K; exact HR]|].
     split; [reflexivity|discriminate].
   - assert (G : (if g1 c <? q then g1 c else q) = q) by (destruct (g1 c <? q) eqn:G; lia).
     rewrite G. eexists. split; [reflexivity|]. unfold wrap_ok. simpl.
-    split; [exists it; repeat split; auto; unfold item_ok; rewrite D, K; auto|].
+    split; [exists it; repeat split; auto; [unfold item_ok; rewrite D, K; auto|rewrite K; exact HR]|].
     split; [reflexivity|discriminate].
 Qed.
 
 Lemma zmax_ge a b : a <= zmax a b /\ b <= zmax a b.
 Proof. unfold zmax. destruct (a <? b) eqn:E; lia. Qed.
 
-Lemma set_limit_ok c maxrt i it r rt : valid_cfg c -> item_ok c it -> inner_ok c maxrt i it ->
-  exists i', set_limit true c i r rt = Some i' /\ inner_ok c (zmax maxrt rt) i' it.
+Lemma set_limit_ok c maxrt i it r rt : valid_cfg c -> item_ok c it -> inner_ok (ck c) maxrt i it ->
+  exists i', set_limit true c i r rt = Some i' /\ inner_ok (ck c) (zmax maxrt rt) i' it.
 Proof.
   intros V Hit Hi. pose proof (zmax_ge maxrt rt) as [Z1 Z2].
-  assert (Hmono : inner_ok c (zmax maxrt rt) i it) by (apply inner_ok_mono with (m := maxrt); assumption).
+  assert (Hmono : inner_ok (ck c) (zmax maxrt rt) i it) by (apply inner_ok_mono with (m := maxrt); assumption).
   unfold set_limit. destruct (iw i) eqn:W; [exists i; auto| |].
   - (* maxInflightWrapper *)
     destruct ((0 <? rt) && (rt <=? ilast i)) eqn:St; [exists i; auto|].
     unfold inner_ok in Hi. rewrite W in Hi.
-    destruct Hi as (H1 & H2 & m & n & H3 & H4 & H5 & H6 & H7 & H8).
+    destruct Hi as (H1 & H2 & m & n & H3 & H4 & H5 & H6 & H7 & H8 & H9).
     unfold valid_cfg, item_ok in *. rewrite H2 in *. rewrite H3 in Hit.
     pose proof (reserve_range m ltac:(lia)) as R.
     destruct r as [mx rate| |[|] limit]; [|exists i; auto| |].
@@ -271,7 +296,7 @@ Proof.
       repeat split; auto. rewrite H6. simpl.
       set (x := if mx <? l1 c then l1 c else mx).
       set (y := if imax i <? x then imax i else x).
-      assert (0 <= y <= m) by (subst x y; rewrite H4; destruct (mx <? l1 c) eqn:E1; destruct (m <? _) eqn:E2; lia).
+      assert (0 <= y <= m /\ 0 <= x) by (subst x y; rewrite H4; destruct (mx <? l1 c) eqn:E1; destruct (m <? _) eqn:E2; lia).
       exists m, y. rewrite wrapu32_id31 by lia. repeat split; auto; lia.
     + eexists. split; [reflexivity|]. unfold inner_ok. simpl.
       repeat split; auto. rewrite H6. simpl.
@@ -285,7 +310,7 @@ Proof.
       exists m, (clamp limit 0 m). rewrite wrapu32_id31 by lia. repeat split; auto; lia.
   - (* tokenBucketWrapper *)
     unfold inner_ok in Hi. rewrite W in Hi.
-    destruct Hi as (H1 & H2 & H3 & q & b & q' & b' & H4 & H5 & H6 & H7 & H8 & H9 & H10).
+    destruct Hi as (H1 & H2 & H3 & q & b & q' & b' & H4 & H5 & H6 & H7 & H8 & H9 & H10 & H11).
     unfold valid_cfg, item_ok in *. rewrite H2 in *. rewrite H4 in Hit.
     destruct r as [mx rate| |[|] limit]; [|exists i; auto| |exists i; auto].
     + destruct (iun i) eqn:U; [exists i; auto|].
@@ -294,7 +319,7 @@ Proof.
       set (x := if rate <? l1 c then l1 c else rate).
       set (y := if iqps i <? x then iqps i else x).
       set (z := if iburst i <? x then iburst i else x).
-      assert (0 <= y <= q /\ 0 <= z <= b)
+      assert (0 <= y <= q /\ 0 <= z <= b /\ 0 <= x)
         by (subst x y z; rewrite H5, H6; destruct (rate <? l1 c) eqn:E1; destruct (q <? _) eqn:E2; destruct (b <? _) eqn:E3; lia).
       exists q, b, y, z. rewrite !wrapu32_id31 by lia. repeat split; auto; try lia; discriminate.
     + destruct (iun i) eqn:U; [|exists i; auto].
@@ -304,30 +329,40 @@ Proof.
 Qed.
 
 (* ---------- the invariant is preserved by every event ---------- *)
-Lemma apply_sync_inv st c maxrt s it : cfg st = c -> valid_cfg c -> 0 <= maxrt ->
-  enable_global (sstr s) = true -> Inv c maxrt s -> Inv c maxrt (apply_sync true c s it).
+Lemma apply_sync_inv k maxrt s it : 0 <= maxrt ->
+  enable_global (sstr s) = true -> Inv k maxrt s -> Inv k maxrt (apply_sync true true (scfg s) s it).
 Proof.
-  intros _ V Hm G (I1 & I2 & I3). unfold apply_sync.
-  assert (Hw : wrap_ok c maxrt (match rem s with Some w => w | None => empty_rw end)).
+  intros Hm G (I1 & V & K & I2 & I3). unfold apply_sync.
+  assert (Hw : wrap_ok (scfg s) maxrt (match rem s with Some w => w | None => empty_rw end)).
   { destruct (rem s); [assumption|]. unfold wrap_ok, empty_rw. reflexivity. }
-  destruct (rw_sync_ok c maxrt _ it V Hm Hw) as (w' & E & Hw' & _). rewrite E.
-  unfold Inv, set_rem. simpl. repeat split; auto. intros X. congruence.
+  destruct (rw_sync_ok (scfg s) (scfg s) maxrt _ it V eq_refl Hm Hw) as (w' & E & X). rewrite E.
+  unfold Inv, set_rem. simpl. repeat split; auto; [intros Y; congruence|].
+  destruct (sanitize (scfg s) it); [tauto|]. subst w'. exact Hw.
 Qed.
 
-Lemma step_inv st c maxrt s e : cfg st = c -> valid_cfg c -> 0 <= maxrt ->
-  Inv c maxrt s -> Inv c (next_rt maxrt e) (step true st s e).
+Lemma config_eqb_eq c a b g h :
+  config_eqb {| ck := ck c; l1 := a; l2 := b; g1 := g; g2 := h |} c = true ->
+  {| ck := ck c; l1 := a; l2 := b; g1 := g; g2 := h |} = c.
 Proof.
-  intros C V Hm I. pose proof I as (I1 & I2 & I3).
-  unfold step. rewrite I1, C.
-  destruct e as [it| |r rt|ok|sec|x|]; simpl next_rt; try assumption.
-  - destruct (enable_global (sstr s)) eqn:G; [|assumption]. eapply apply_sync_inv; eauto.
+  unfold config_eqb. destruct c. simpl. intros H.
+  apply andb_true_iff in H. destruct H as [H H4]. apply andb_true_iff in H. destruct H as [H H3].
+  apply andb_true_iff in H. destruct H as [H1 H2]. f_equal; lia.
+Qed.
+
+Lemma step_inv st k maxrt s e : 0 <= maxrt -> ev_ok k e ->
+  Inv k maxrt s -> Inv k (next_rt maxrt e) (step true true st s e).
+Proof.
+  intros Hm Ev I. pose proof I as (I1 & V & K & I2 & I3).
+  unfold step. rewrite I1.
+  destruct e as [it| |r rt|ok|sec|x|a b g h|]; simpl next_rt; try assumption.
+  - destruct (enable_global (sstr s)) eqn:G; [|assumption]. apply apply_sync_inv; auto.
   - destruct (strategy_eqb (sstr s) SCount) eqn:G; [|assumption].
-    apply strategy_eqb_eq in G. eapply apply_sync_inv; eauto. rewrite G. reflexivity.
+    apply strategy_eqb_eq in G. apply apply_sync_inv; auto. rewrite G. reflexivity.
   - pose proof (zmax_ge maxrt rt) as [Z1 Z2].
     destruct (rem s) as [w|] eqn:R; [|apply Inv_mono with (m := maxrt); assumption].
     destruct (rin w) as [i|] eqn:Ri; [|apply Inv_mono with (m := maxrt); assumption].
     unfold wrap_ok in I3. rewrite Ri in I3. destruct I3 as (it & Rc & Hit & Hi).
-    destruct (set_limit_ok c maxrt i it r rt V Hit Hi) as (i' & E & Hi'). rewrite E.
+    destruct (set_limit_ok (scfg s) maxrt i it r rt V Hit Hi) as (i' & E & Hi'). rewrite E.
     unfold Inv, set_rem. simpl. repeat split; auto; [intros X; specialize (I2 X); discriminate|].
     unfold wrap_ok. simpl. exists it. auto.
   - unfold Inv. simpl. auto.
@@ -335,6 +370,23 @@ Proof.
     unfold Inv. simpl. repeat split; auto.
     + intros G. rewrite G. reflexivity.
     + destruct (enable_global x); auto.
+  - (* the limits of the schema change *)
+    simpl in Ev. rewrite <- K in Ev.
+    set (c' := {| ck := ck (scfg s); l1 := a; l2 := b; g1 := g; g2 := h |}) in *.
+    destruct (config_eqb c' (scfg s)); [assumption|].
+    destruct (enable_global (sstr s)) eqn:G; simpl.
+    + destruct (rem s) as [w|] eqn:R.
+      * unfold wrap_ok in I3.
+        destruct (rin w) as [i|] eqn:Ri.
+        -- destruct I3 as (it & Rc & Hit & Hi). rewrite Rc.
+           assert (Hw : wrap_ok (scfg s) maxrt w) by (unfold wrap_ok; rewrite Ri; exists it; auto).
+           destruct (rw_sync_ok (scfg s) c' maxrt w it Ev eq_refl Hm Hw) as (w' & E & X). rewrite E.
+           destruct (sanitize_same_kind (scfg s) c' it eq_refl Hit) as (it' & Sa). rewrite Sa in X.
+           unfold Inv, set_cfg. simpl. repeat split; auto; [intros Y; congruence|tauto].
+        -- unfold Inv, set_cfg. simpl. repeat split; auto; [intros Y; congruence|].
+           unfold wrap_ok. rewrite Ri. exact I3.
+      * unfold Inv, set_cfg. simpl. repeat split; auto.
+    + unfold Inv, set_cfg. simpl. repeat split; auto.
   - destruct (enable_global (sstr s)) eqn:G; [|assumption].
     destruct (rem s) eqn:R; [assumption|].
     unfold Inv, set_rem. simpl. repeat split; auto; try congruence.
@@ -357,10 +409,10 @@ Definition remote_lim (s : state) : option lim :=
   | None => None
   end.
 
-Lemma select_elig st c maxrt s : Inv c maxrt s ->
+Lemma select_elig st k maxrt s : Inv k maxrt s ->
   select true st s = if elig st s then SelRemote else SelLocal.
 Proof.
-  intros (I1 & I2 & _). unfold select, elig, is_ready, has_inner.
+  intros (I1 & _ & _ & I2 & _). unfold select, elig, is_ready, has_inner.
   destruct (md st); try reflexivity.
   destruct (sstr s) eqn:S; simpl in *; destruct (cs st); simpl; try reflexivity;
     try (rewrite (I2 eq_refl); destruct (hready s); reflexivity);
@@ -368,21 +420,21 @@ Proof.
     destruct (rem s) as [w|]; try reflexivity; destruct (rin w); reflexivity.
 Qed.
 
-Lemma observe_shape st c maxrt s : cfg st = c -> Inv c maxrt s ->
+Lemma observe_shape st k maxrt s : Inv k maxrt s ->
   observe true st s =
-  let l := if elig st s then remote_lim s else Some (local_lim c) in
+  let l := if elig st s then remote_lim s else Some (local_lim (scfg s)) in
   {| o_evp := false; o_sel := if elig st s then SelRemote else SelLocal; o_lim := l;
-     o_adm := admitted c l; o_ready := is_ready st s; o_rem := observe_rem s |}.
+     o_adm := admitted (scfg s) l; o_ready := is_ready st s; o_rem := observe_rem s |}.
 Proof.
-  intros C I. pose proof I as (I1 & _). unfold observe. rewrite I1, C.
-  rewrite (select_elig st c maxrt s I). unfold remote_lim.
+  intros I. pose proof I as (I1 & _). unfold observe. rewrite I1.
+  rewrite (select_elig st k maxrt s I). unfold remote_lim.
   destruct (elig st s); reflexivity.
 Qed.
 
-Lemma eligible_observe st c maxrt s : cfg st = c -> Inv c maxrt s ->
+Lemma eligible_observe st k maxrt s : Inv k maxrt s ->
   eligible st (sstr s) (observe true st s) = elig st s.
 Proof.
-  intros C I. rewrite (observe_shape st c maxrt s C I).
+  intros I. rewrite (observe_shape st k maxrt s I).
   unfold eligible, elig, synced, has_inner, observe_rem, is_ready, global_strategy, enable_global. simpl.
   destruct (md st); try reflexivity. destruct (cs st); try reflexivity.
   destruct (rem s) as [w|]; [|reflexivity]. destruct (rin w); reflexivity.
@@ -395,56 +447,55 @@ Proof.
   - rewrite !wrapu32_id31 by lia. reflexivity.
 Qed.
 
-Lemma remote_bounded c maxrt s l : valid_cfg c -> Inv c maxrt s -> remote_lim s = Some l ->
-  lim_bounded c l = true.
+Lemma remote_bounded k maxrt s l : Inv k maxrt s -> remote_lim s = Some l ->
+  lim_bounded (scfg s) l = true.
 Proof.
-  intros V (_ & _ & I3) R. unfold remote_lim in R.
+  intros (_ & V & _ & _ & I3) R. unfold remote_lim in R.
   destruct (rem s) as [w|]; [|discriminate]. unfold wrap_ok in I3.
   destruct (rin w) as [i|]; [|discriminate]. inversion R; subst l; clear R.
   destruct I3 as (it & _ & Hit & Hi). unfold inner_ok in Hi. unfold item_ok in Hit.
   unfold lim_bounded, in_range, valid_cfg in *.
   destruct (iw i).
   - destruct Hi as (_ & E & _). rewrite E.
-    destruct (ck c); destruct (idet it); try contradiction; simpl; lia.
-  - destruct Hi as (_ & K & m & n & _ & _ & _ & E & Hn & _). rewrite E, K. lia.
-  - destruct Hi as (_ & K & _ & q & b & q' & b' & _ & _ & _ & E & Hq & Hb & _). rewrite E, K. lia.
+    destruct (ck (scfg s)); destruct (idet it); try contradiction; simpl; lia.
+  - destruct Hi as (_ & K & m & n & D & _ & _ & E & Hn & _). rewrite E, K in *. rewrite D in Hit. lia.
+  - destruct Hi as (_ & K & _ & q & b & q' & b' & D & _ & _ & E & Hq & Hb & _). rewrite E, K in *. rewrite D in Hit. lia.
 Qed.
 
 Lemma admitted_le c n : admitted c (Some (LMI n)) <= n.
 Proof. unfold admitted. destruct (probe_cap c <? n) eqn:E; lia. Qed.
 
 (* ---------- the state clauses of the specification ---------- *)
-Lemma bound_holds st c maxrt s : cfg st = c -> valid_cfg c -> Inv c maxrt s ->
-  bound_ok c (observe true st s) = true.
+Lemma bound_holds st k maxrt s : Inv k maxrt s -> bound_ok (scfg s) (observe true st s) = true.
 Proof.
-  intros C V I. rewrite (observe_shape st c maxrt s C I). unfold bound_ok. simpl.
+  intros I. pose proof I as (_ & V & _). rewrite (observe_shape st k maxrt s I). unfold bound_ok. simpl.
   destruct (elig st s) eqn:E.
   - unfold elig in E. destruct (md st); try discriminate. destruct (cs st); try discriminate.
     apply andb_true_iff in E. destruct E as [_ E]. unfold has_inner in E.
     destruct (remote_lim s) as [l|] eqn:R.
-    + pose proof (remote_bounded c maxrt s l V I R) as B. rewrite B. simpl.
-      unfold lim_bounded, in_range in B. destruct (ck c); [|reflexivity].
-      destruct l; try discriminate. pose proof (admitted_le c n) as A. unfold admitted in *. lia.
+    + pose proof (remote_bounded k maxrt s l I R) as B. rewrite B. simpl.
+      unfold lim_bounded, in_range in B. destruct (ck (scfg s)); [|reflexivity].
+      destruct l; try discriminate. pose proof (admitted_le (scfg s) n) as A. unfold admitted in *. lia.
     + unfold remote_lim in R. destruct (rem s) as [w|]; [|discriminate]. destruct (rin w); discriminate.
-  - rewrite (local_lim_spec c V). unfold local_spec, lim_bounded, in_range, valid_cfg in *.
-    destruct (ck c); simpl.
-    + pose proof (admitted_le c (l1 c)) as A. unfold admitted in *. lia.
+  - rewrite (local_lim_spec _ V). unfold local_spec, lim_bounded, in_range, valid_cfg in *.
+    destruct (ck (scfg s)); simpl.
+    + pose proof (admitted_le (scfg s) (l1 (scfg s))) as A. unfold admitted in *. lia.
     + lia.
 Qed.
 
-Lemma fallback_holds st c maxrt s : cfg st = c -> valid_cfg c -> Inv c maxrt s ->
-  fallback_ok st (sstr s) (observe true st s) = true.
+Lemma fallback_holds st k maxrt s : Inv k maxrt s ->
+  fallback_ok st (scfg s) (sstr s) (observe true st s) = true.
 Proof.
-  intros C V I. unfold fallback_ok. rewrite (eligible_observe st c maxrt s C I).
-  rewrite (observe_shape st c maxrt s C I). simpl.
-  destruct (elig st s); [reflexivity|]. rewrite C, (local_lim_spec c V). apply lim_eqb_refl.
+  intros I. pose proof I as (_ & V & _). unfold fallback_ok. rewrite (eligible_observe st k maxrt s I).
+  rewrite (observe_shape st k maxrt s I). simpl.
+  destruct (elig st s); [reflexivity|]. rewrite (local_lim_spec _ V). apply lim_eqb_refl.
 Qed.
 
-Lemma inforce_holds st c maxrt s : cfg st = c -> Inv c maxrt s ->
+Lemma inforce_holds st k maxrt s : Inv k maxrt s ->
   inforce_ok st (sstr s) (observe true st s) = true.
 Proof.
-  intros C I. unfold inforce_ok. rewrite (eligible_observe st c maxrt s C I).
-  rewrite (observe_shape st c maxrt s C I). simpl.
+  intros I. unfold inforce_ok. rewrite (eligible_observe st k maxrt s I).
+  rewrite (observe_shape st k maxrt s I). simpl.
   destruct (elig st s) eqn:E; [|reflexivity].
   unfold elig in E. destruct (md st); try discriminate. destruct (cs st); try discriminate.
   apply andb_true_iff in E. destruct E as [_ E]. unfold has_inner in E.
@@ -452,51 +503,50 @@ Proof.
   destruct (rin w); [|discriminate]. simpl. apply lim_eqb_refl.
 Qed.
 
-Lemma nopanic_holds st c maxrt s : cfg st = c -> Inv c maxrt s ->
-  nopanic_ok (observe true st s) = true.
+Lemma nopanic_holds st k maxrt s : Inv k maxrt s -> nopanic_ok (observe true st s) = true.
 Proof.
-  intros C I. rewrite (observe_shape st c maxrt s C I). unfold nopanic_ok. simpl.
+  intros I. rewrite (observe_shape st k maxrt s I). unfold nopanic_ok. simpl.
   destruct (elig st s); reflexivity.
 Qed.
 
 (* ---------- the reaction clauses: failing / recovery ---------- *)
-Lemma observe_rem_eq st c maxrt s : cfg st = c -> Inv c maxrt s ->
+Lemma observe_rem_eq st k maxrt s : Inv k maxrt s ->
   o_rem (observe true st s) = observe_rem s /\ o_evp (observe true st s) = false.
-Proof. intros C I. rewrite (observe_shape st c maxrt s C I). simpl. auto. Qed.
+Proof. intros I. rewrite (observe_shape st k maxrt s I). simpl. auto. Qed.
 
 Lemma not_stale maxrt rt last : fresh maxrt rt = true -> last <= maxrt ->
   (0 <? rt) && (rt <=? last) = false.
 Proof. unfold fresh. intros F L. destruct (0 <? rt) eqn:A; destruct (rt <=? last) eqn:B; simpl; try reflexivity. lia. Qed.
 
-Lemma ilast_le c maxrt i it : inner_ok c maxrt i it -> iw i = WMI -> ilast i <= maxrt.
-Proof. unfold inner_ok. intros H W. rewrite W in H. destruct H as (_ & _ & m & n & _ & _ & _ & _ & _ & H). exact H. Qed.
+Lemma ilast_le k maxrt i it : inner_ok k maxrt i it -> iw i = WMI -> ilast i <= maxrt.
+Proof. unfold inner_ok. intros H W. rewrite W in H. destruct H as (_ & _ & m & n & _ & _ & _ & _ & _ & H & _). exact H. Qed.
 
 Lemma zmin_zmax_eq a b m : (if m <? (if a <? b then b else a) then m else (if a <? b then b else a)) = zmin (zmax a b) m.
 Proof. unfold zmin, zmax. destruct (a <? b) eqn:E1; destruct (m <? _) eqn:E2; destruct (_ <? m) eqn:E3; lia. Qed.
 
-Lemma set_limit_mi_err c maxrt i it m mx rate rt : valid_cfg c -> item_ok c it -> inner_ok c maxrt i it ->
+Lemma set_limit_mi_err c maxrt i it m mx rate rt : valid_cfg c -> item_ok c it -> inner_ok (ck c) maxrt i it ->
   iw i = WMI -> iun i = false -> (0 <? rt) && (rt <=? ilast i) = false -> idet it = DMI m ->
   exists i', set_limit true c i (RErr mx rate) rt = Some i' /\ iw i' = WMI /\ iun i' = true /\
              il i' = LMI (zmin (zmax mx (l1 c)) m).
 Proof.
   intros V Hit Hi W U F D. unfold inner_ok in Hi. rewrite W in Hi.
-  destruct Hi as (H1 & H2 & m0 & n & H3 & H4 & H5 & H6 & H7 & H8).
+  destruct Hi as (H1 & H2 & m0 & n & H3 & H4 & H5 & H6 & H7 & H8 & H9).
   rewrite D in H3. injection H3 as Hm0. rewrite <- Hm0 in *. clear Hm0.
   unfold set_limit. rewrite W, F, U, H2.
   eexists. split; [reflexivity|]. simpl. repeat split.
   rewrite H6, H4. simpl. rewrite zmin_zmax_eq.
   unfold valid_cfg, item_ok in *. rewrite H2 in *. rewrite D in Hit.
   rewrite wrapu32_id31; [reflexivity|].
-  unfold zmin, zmax. destruct (mx <? l1 c) eqn:E1; destruct (_ <? m) eqn:E2; lia.
+  unfold zmin, zmax. zcases; lia.
 Qed.
 
-Lemma set_limit_mi_accept c maxrt i it m limit rt : valid_cfg c -> item_ok c it -> inner_ok c maxrt i it ->
+Lemma set_limit_mi_accept c maxrt i it m limit rt : valid_cfg c -> item_ok c it -> inner_ok (ck c) maxrt i it ->
   iw i = WMI -> (0 <? rt) && (rt <=? ilast i) = false -> idet it = DMI m ->
   exists i', set_limit true c i (ROk true limit) rt = Some i' /\ iw i' = WMI /\ iun i' = false /\ iover i' = false /\
              il i' = LMI (zmin (zmax limit (reserve_of true m)) m).
 Proof.
   intros V Hit Hi W F D. unfold inner_ok in Hi. rewrite W in Hi.
-  destruct Hi as (H1 & H2 & m0 & n & H3 & H4 & H5 & H6 & H7 & H8).
+  destruct Hi as (H1 & H2 & m0 & n & H3 & H4 & H5 & H6 & H7 & H8 & H9).
   rewrite D in H3. injection H3 as Hm0. rewrite <- Hm0 in *. clear Hm0.
   unfold set_limit. rewrite W, F.
   eexists. split; [reflexivity|]. simpl. repeat split.
@@ -504,16 +554,16 @@ Proof.
   unfold valid_cfg, item_ok in *. rewrite H2 in *. rewrite D in Hit.
   pose proof (reserve_range m ltac:(lia)) as R.
   rewrite wrapu32_id31; [reflexivity|].
-  unfold zmin, zmax. destruct (limit <? _) eqn:E1; destruct (_ <? m) eqn:E2; lia.
+  unfold zmin, zmax. zcases; lia.
 Qed.
 
-Lemma set_limit_tb_err c maxrt i it q b mx rate rt : valid_cfg c -> item_ok c it -> inner_ok c maxrt i it ->
+Lemma set_limit_tb_err c maxrt i it q b mx rate rt : valid_cfg c -> item_ok c it -> inner_ok (ck c) maxrt i it ->
   iw i = WTB -> iun i = false -> idet it = DTB q b ->
   exists i', set_limit true c i (RErr mx rate) rt = Some i' /\ iw i' = WTB /\ iun i' = true /\
              il i' = LTB (zmin (zmax rate (l1 c)) q) (zmin (zmax rate (l1 c)) b).
 Proof.
   intros V Hit Hi W U D. unfold inner_ok in Hi. rewrite W in Hi.
-  destruct Hi as (H1 & H2 & H3 & q0 & b0 & q' & b' & H4 & H5 & H6 & H7 & H8 & H9 & H10).
+  destruct Hi as (H1 & H2 & H3 & q0 & b0 & q' & b' & H4 & H5 & H6 & H7 & H8 & H9 & H10 & H11).
   rewrite D in H4. injection H4 as Hq0 Hb0. rewrite <- Hq0, <- Hb0 in *. clear Hq0 Hb0.
   unfold set_limit. rewrite W, U, H2.
   eexists. split; [reflexivity|]. simpl. repeat split.
@@ -522,12 +572,12 @@ Proof.
   rewrite !wrapu32_id31; [reflexivity| |]; unfold zmin, zmax; zcases; lia.
 Qed.
 
-Lemma set_limit_tb_accept c maxrt i it q b limit rt : valid_cfg c -> item_ok c it -> inner_ok c maxrt i it ->
+Lemma set_limit_tb_accept c maxrt i it q b limit rt : valid_cfg c -> item_ok c it -> inner_ok (ck c) maxrt i it ->
   iw i = WTB -> idet it = DTB q b ->
   exists i', set_limit true c i (ROk true limit) rt = Some i' /\ iw i' = WTB /\ iun i' = false /\ il i' = LTB q b.
 Proof.
   intros V Hit Hi W D. unfold inner_ok in Hi. rewrite W in Hi.
-  destruct Hi as (H1 & H2 & H3 & q0 & b0 & q' & b' & H4 & H5 & H6 & H7 & H8 & H9 & H10).
+  destruct Hi as (H1 & H2 & H3 & q0 & b0 & q' & b' & H4 & H5 & H6 & H7 & H8 & H9 & H10 & H11).
   rewrite D in H4. injection H4 as Hq0 Hb0. rewrite <- Hq0, <- Hb0 in *. clear Hq0 Hb0.
   unfold set_limit. rewrite W. destruct (iun i) eqn:U.
   - eexists. split; [reflexivity|]. simpl. repeat split. rewrite H7, H5, H6. reflexivity.
@@ -535,24 +585,24 @@ Proof.
 Qed.
 
 (* the remote part of the observation after a count reply *)
-Lemma count_step st c s w i i' r rt : cfg st = c -> crashed s = false ->
-  rem s = Some w -> rin w = Some i -> set_limit true c i r rt = Some i' ->
-  observe_rem (step true st s (ECount r rt)) =
+Lemma count_step st s w i i' r rt : crashed s = false ->
+  rem s = Some w -> rin w = Some i -> set_limit true (scfg s) i r rt = Some i' ->
+  observe_rem (step true true st s (ECount r rt)) =
   Some {| r_inner := Some (iw i'); r_lim := Some (il i'); r_unavail := iun i'; r_over := iover i'; r_cfg := rcfg w |}.
 Proof.
-  intros C I1 R Ri E. unfold step. rewrite I1, C, R, Ri, E. unfold observe_rem, set_rem. simpl. reflexivity.
+  intros I1 R Ri E. unfold step. rewrite I1, R, Ri, E. unfold observe_rem, set_rem. simpl. reflexivity.
 Qed.
 
-Lemma failing_holds st c maxrt s e : cfg st = c -> valid_cfg c -> 0 <= maxrt -> Inv c maxrt s ->
-  failing_ok c maxrt (observe true st s) e (observe true st (step true st s e)) = true.
+Lemma failing_holds st k maxrt s e : 0 <= maxrt -> ev_ok k e -> Inv k maxrt s ->
+  failing_ok (scfg s) maxrt (observe true st s) e (observe true st (step true true st s e)) = true.
 Proof.
-  intros C V Hm I. pose proof (step_inv st c maxrt s e C V Hm I) as I'.
+  intros Hm Ev I. pose proof (step_inv st k maxrt s e Hm Ev I) as I'.
   unfold failing_ok, rem_of, inner_is, rlim_is, rcfg_det, rem_of.
-  destruct (observe_rem_eq st c _ _ C I') as [-> ->].
-  destruct (observe_rem_eq st c _ _ C I) as [-> _].
-  destruct e as [| |[mx rate| |] rt| | | |]; try reflexivity.
-  pose proof I as (I1 & I2 & I3).
-  set (Q := observe_rem (step true st s (ECount (RErr mx rate) rt))).
+  destruct (observe_rem_eq st k _ _ I') as [-> ->].
+  destruct (observe_rem_eq st k _ _ I) as [-> _].
+  destruct e as [| |[mx rate| |] rt| | | | |]; try reflexivity.
+  pose proof I as (I1 & V & K & I2 & I3).
+  set (Q := observe_rem (step true true st s (ECount (RErr mx rate) rt))).
   unfold observe_rem. destruct (rem s) as [w|] eqn:R; [|reflexivity].
   unfold wrap_ok in I3. destruct (rin w) as [i|] eqn:Ri; [|reflexivity]. simpl.
   destruct I3 as (it & Rc & Hit & Hi). rewrite Rc.
@@ -562,38 +612,38 @@ Proof.
     assert (D : exists m, idet it = DMI m).
     { unfold inner_ok in Hi. rewrite W in Hi. destruct Hi as (_ & _ & m & n & D & _). eauto. }
     destruct D as (m & D). rewrite D.
-    destruct (set_limit_mi_err c maxrt i it m mx rate rt V Hit Hi W U (not_stale _ _ _ F (ilast_le c maxrt i it Hi W)) D) as (i' & E & W' & U' & L').
-    subst Q. rewrite (count_step st c s w i i' _ rt C I1 R Ri E). simpl. rewrite U', L'. simpl. lia.
+    destruct (set_limit_mi_err (scfg s) maxrt i it m mx rate rt V Hit Hi W U (not_stale _ _ _ F (ilast_le _ maxrt i it Hi W)) D) as (i' & E & W' & U' & L').
+    subst Q. rewrite (count_step st s w i i' _ rt I1 R Ri E). simpl. rewrite U', L'. simpl. lia.
   - assert (D : exists q b, idet it = DTB q b).
     { unfold inner_ok in Hi. rewrite W in Hi. destruct Hi as (_ & _ & _ & q & b & q' & b' & D & _). eauto. }
     destruct D as (q & b & D). rewrite D.
-    destruct (set_limit_tb_err c maxrt i it q b mx rate rt V Hit Hi W U D) as (i' & E & W' & U' & L').
-    subst Q. rewrite (count_step st c s w i i' _ rt C I1 R Ri E). simpl. rewrite U', L'. simpl.
+    destruct (set_limit_tb_err (scfg s) maxrt i it q b mx rate rt V Hit Hi W U D) as (i' & E & W' & U' & L').
+    subst Q. rewrite (count_step st s w i i' _ rt I1 R Ri E). simpl. rewrite U', L'. simpl.
     apply andb_true_iff. split; lia.
 Qed.
 
-Lemma recovery_holds st c maxrt s e : cfg st = c -> valid_cfg c -> 0 <= maxrt -> Inv c maxrt s ->
-  recovery_ok c (sstr s) maxrt (observe true st s) e (observe true st (step true st s e)) = true.
+Lemma recovery_holds st k maxrt s e : 0 <= maxrt -> ev_ok k e -> Inv k maxrt s ->
+  recovery_ok (scfg s) (sstr s) maxrt (observe true st s) e (observe true st (step true true st s e)) = true.
 Proof.
-  intros C V Hm I. pose proof (step_inv st c maxrt s e C V Hm I) as I'.
+  intros Hm Ev I. pose proof (step_inv st k maxrt s e Hm Ev I) as I'.
   unfold recovery_ok, rem_of, inner_is, rlim_is, rcfg_det, rem_of.
-  destruct (observe_rem_eq st c _ _ C I') as [-> ->].
-  destruct (observe_rem_eq st c _ _ C I) as [-> _].
-  pose proof I as (I1 & I2 & I3).
-  destruct e as [it0| |[| |[|] limit] rt| | | |]; try reflexivity.
+  destruct (observe_rem_eq st k _ _ I') as [-> ->].
+  destruct (observe_rem_eq st k _ _ I) as [-> _].
+  pose proof I as (I1 & V & K & I2 & I3).
+  destruct e as [it0| |[| |[|] limit] rt| | | | |]; try reflexivity.
   - (* a server quota *)
     destruct (global_strategy (sstr s)) eqn:G; [|reflexivity].
     destruct (strategy_eqb (istr it0) SCount) eqn:S; [reflexivity|]. simpl.
-    destruct (granted c (idet it0)) as [l|] eqn:Gr; [|reflexivity].
-    unfold step. rewrite I1, C.
+    destruct (granted (scfg s) (idet it0)) as [l|] eqn:Gr; [|reflexivity].
+    unfold step. rewrite I1.
     replace (enable_global (sstr s)) with true by (rewrite <- G; destruct (sstr s); reflexivity).
     unfold apply_sync.
-    assert (Hw : wrap_ok c maxrt (match rem s with Some w => w | None => empty_rw end)).
+    assert (Hw : wrap_ok (scfg s) maxrt (match rem s with Some w => w | None => empty_rw end)).
     { destruct (rem s); [assumption|]. unfold wrap_ok, empty_rw. reflexivity. }
-    destruct (rw_sync_ok c maxrt _ it0 V Hm Hw) as (w' & E & Hw' & X). rewrite E.
-    destruct (sanitize c it0) as [it|] eqn:Sa; [|rewrite (sanitize_none c it0 Sa) in Gr; discriminate].
-    destruct (sanitize_ok c it0 it V Sa) as (Hit & Hs & Hg). rewrite Hg in Gr. inversion Gr; subst l; clear Gr.
-    destruct X as [Rc Rn]. unfold observe_rem, set_rem. simpl.
+    destruct (rw_sync_ok (scfg s) (scfg s) maxrt _ it0 V eq_refl Hm Hw) as (w' & E & X). rewrite E.
+    destruct (sanitize (scfg s) it0) as [it|] eqn:Sa; [|rewrite (sanitize_none _ it0 Sa) in Gr; discriminate].
+    destruct (sanitize_ok _ it0 it V Sa) as (Hit & Hs & Hg). rewrite Hg in Gr. inversion Gr; subst l; clear Gr.
+    destruct X as (Hw' & Rc & Rn). unfold observe_rem, set_rem. simpl.
     unfold wrap_ok in Hw'. destruct (rin w') as [i'|]; [|congruence]. simpl.
     destruct Hw' as (it' & Rc' & _ & Hi'). rewrite Rc in Rc'. inversion Rc'; subst it'; clear Rc'.
     unfold inner_ok in Hi'. rewrite Hs in Hi'.
@@ -602,7 +652,7 @@ Proof.
     + destruct Hi' as (X & _). rewrite X in S. discriminate.
     + destruct Hi' as (X & _). rewrite X in S. discriminate.
   - (* an accepted global-count reply *)
-    set (Q := observe_rem (step true st s (ECount (ROk true limit) rt))).
+    set (Q := observe_rem (step true true st s (ECount (ROk true limit) rt))).
     unfold observe_rem. destruct (rem s) as [w|] eqn:R; [|reflexivity].
     unfold wrap_ok in I3. destruct (rin w) as [i|] eqn:Ri; [|reflexivity]. simpl.
     destruct I3 as (it & Rc & Hit & Hi). rewrite Rc.
@@ -611,85 +661,108 @@ Proof.
       assert (D : exists m, idet it = DMI m).
       { unfold inner_ok in Hi. rewrite W in Hi. destruct Hi as (_ & _ & m & n & D & _). eauto. }
       destruct D as (m & D). rewrite D.
-      destruct (set_limit_mi_accept c maxrt i it m limit rt V Hit Hi W (not_stale _ _ _ F (ilast_le c maxrt i it Hi W)) D) as (i' & E & W' & U' & O' & L').
-      subst Q. rewrite (count_step st c s w i i' _ rt C I1 R Ri E). simpl. rewrite U', O', L'. simpl. lia.
+      destruct (set_limit_mi_accept (scfg s) maxrt i it m limit rt V Hit Hi W (not_stale _ _ _ F (ilast_le _ maxrt i it Hi W)) D) as (i' & E & W' & U' & O' & L').
+      subst Q. rewrite (count_step st s w i i' _ rt I1 R Ri E). simpl. rewrite U', O', L'. simpl. lia.
     + assert (D : exists q b, idet it = DTB q b).
       { unfold inner_ok in Hi. rewrite W in Hi. destruct Hi as (_ & _ & _ & q & b & q' & b' & D & _). eauto. }
       destruct D as (q & b & D). rewrite D.
-      destruct (set_limit_tb_accept c maxrt i it q b limit rt V Hit Hi W D) as (i' & E & W' & U' & L').
-      subst Q. rewrite (count_step st c s w i i' _ rt C I1 R Ri E). simpl. rewrite U', L'. simpl.
+      destruct (set_limit_tb_accept (scfg s) maxrt i it q b limit rt V Hit Hi W D) as (i' & E & W' & U' & L').
+      subst Q. rewrite (count_step st s w i i' _ rt I1 R Ri E). simpl. rewrite U', L'. simpl.
       apply andb_true_iff. split; lia.
 Qed.
 
 (* ---------- histories ---------- *)
-Lemma sstr_step st s e : sstr (step true st s e) = if crashed s then sstr s else next_str (sstr s) e.
+Lemma sstr_step st s e : sstr (step true true st s e) = if crashed s then sstr s else next_str (sstr s) e.
 Proof.
   unfold step. destruct (crashed s) eqn:Cr; [reflexivity|].
-  destruct e as [it| |r rt|ok|sec|x|]; simpl.
-  - destruct (enable_global (sstr s)); [|reflexivity]. unfold apply_sync. destruct (rw_sync _ _ _ _); reflexivity.
-  - destruct (strategy_eqb (sstr s) SCount); [|reflexivity]. unfold apply_sync. destruct (rw_sync _ _ _ _); reflexivity.
+  destruct e as [it| |r rt|ok|sec|x|a b g h|]; simpl.
+  - destruct (enable_global (sstr s)); [|reflexivity]. unfold apply_sync. destruct (rw_sync _ _ _ _ _); reflexivity.
+  - destruct (strategy_eqb (sstr s) SCount); [|reflexivity]. unfold apply_sync. destruct (rw_sync _ _ _ _ _); reflexivity.
   - destruct (rem s) as [w|]; [|reflexivity]. destruct (rin w); [|reflexivity]. destruct (set_limit _ _ _ _ _); reflexivity.
   - reflexivity.
   - reflexivity.
   - destruct (strategy_eqb x (sstr s)) eqn:E; [|reflexivity]. apply strategy_eqb_eq in E. congruence.
+  - destruct (config_eqb _ _); [reflexivity|]. destruct (enable_global (sstr s)); simpl; [|reflexivity].
+    destruct (rem s) as [w|]; [|reflexivity]. destruct (rin w); [|reflexivity]. destruct (rcfg w); [|reflexivity].
+    destruct (rw_sync _ _ _ _ _); reflexivity.
+  - destruct (enable_global (sstr s)); [|reflexivity]. destruct (rem s); reflexivity.
+Qed.
+
+Lemma scfg_step st s e : crashed s = false -> scfg (step true true st s e) = next_cfg (scfg s) e.
+Proof.
+  intros Cr. unfold step. rewrite Cr.
+  destruct e as [it| |r rt|ok|sec|x|a b g h|]; simpl.
+  - destruct (enable_global (sstr s)); [|reflexivity]. unfold apply_sync. destruct (rw_sync _ _ _ _ _); reflexivity.
+  - destruct (strategy_eqb (sstr s) SCount); [|reflexivity]. unfold apply_sync. destruct (rw_sync _ _ _ _ _); reflexivity.
+  - destruct (rem s) as [w|]; [|reflexivity]. destruct (rin w); [|reflexivity]. destruct (set_limit _ _ _ _ _); reflexivity.
+  - reflexivity.
+  - reflexivity.
+  - destruct (strategy_eqb x (sstr s)); reflexivity.
+  - destruct (config_eqb _ _) eqn:E; [symmetry; apply config_eqb_eq; exact E|].
+    destruct (enable_global (sstr s)); simpl; [|reflexivity].
+    destruct (rem s) as [w|]; [|reflexivity]. destruct (rin w); [|reflexivity]. destruct (rcfg w); [|reflexivity].
+    destruct (rw_sync _ _ _ _ _); reflexivity.
   - destruct (enable_global (sstr s)); [|reflexivity]. destruct (rem s); reflexivity.
 Qed.
 
 Lemma next_rt_ge maxrt e : maxrt <= next_rt maxrt e.
 Proof. destruct e; simpl; try lia. apply zmax_ge. Qed.
 
-Lemma all_true_and l : l = all_true -> and_lists all_true l = all_true.
-Proof. intros ->. reflexivity. Qed.
-
-Lemma hist_holds st c : cfg st = c -> valid_cfg c ->
-  forall ops s maxrt, 0 <= maxrt -> Inv c maxrt s ->
-  hist_ok st (sstr s) maxrt (observe true st s) (trace true st s ops) = all_true.
+Lemma hist_holds st k :
+  forall ops s maxrt, Forall (ev_ok k) ops -> 0 <= maxrt -> Inv k maxrt s ->
+  hist_ok st (scfg s) (sstr s) maxrt (observe true st s) (trace true true st s ops) = all_true.
 Proof.
-  intros C V. induction ops as [|e r IH]; intros s maxrt Hm I; [reflexivity|].
-  simpl. pose proof (step_inv st c maxrt s e C V Hm I) as I'.
+  induction ops as [|e r IH]; intros s maxrt Ev Hm I; [reflexivity|].
+  inversion Ev as [|? ? Ee Er]; subst.
+  simpl. pose proof (step_inv st k maxrt s e Hm Ee I) as I'.
   pose proof (next_rt_ge maxrt e) as Hge.
-  assert (S' : sstr (step true st s e) = next_str (sstr s) e).
+  assert (S' : sstr (step true true st s e) = next_str (sstr s) e).
   { rewrite sstr_step. destruct I as (I1 & _). rewrite I1. reflexivity. }
-  rewrite <- S'. rewrite (IH _ (next_rt maxrt e) ltac:(lia) I').
-  unfold step_ok. rewrite C.
-  rewrite (bound_holds st c _ _ C V I'), (fallback_holds st c _ _ C V I'), (inforce_holds st c _ _ C I'),
-          (failing_holds st c maxrt s e C V Hm I), (recovery_holds st c maxrt s e C V Hm I),
-          (nopanic_holds st c _ _ C I').
+  assert (C' : scfg (step true true st s e) = next_cfg (scfg s) e).
+  { apply scfg_step. destruct I as (I1 & _). exact I1. }
+  rewrite <- S', <- C'. rewrite (IH _ (next_rt maxrt e) Er ltac:(lia) I').
+  unfold step_ok.
+  rewrite (bound_holds st k _ _ I'), (fallback_holds st k _ _ I'), (inforce_holds st k _ _ I'),
+          (failing_holds st k maxrt s e Hm Ee I), (recovery_holds st k maxrt s e Hm Ee I),
+          (nopanic_holds st k _ _ I').
   reflexivity.
 Qed.
 
-Lemma init_inv c str0 : Inv c 0 (init str0).
-Proof. unfold Inv, init. simpl. auto. Qed.
+Lemma init_inv c str0 : valid_cfg c -> Inv (ck c) 0 (init c str0).
+Proof. intros V. unfold Inv, init. simpl. auto. Qed.
 
-Lemma case_holds st str0 ops : valid_cfg (cfg st) ->
-  case_ok st str0 (observe true st (init str0)) (trace true st (init str0) ops) = all_true.
+Lemma case_holds st str0 ops : valid_cfg (cfg st) -> Forall (ev_ok (ck (cfg st))) ops ->
+  case_ok st str0 (observe true st (init (cfg st) str0)) (trace true true st (init (cfg st) str0) ops) = all_true.
 Proof.
-  intros V. unfold case_ok. pose proof (init_inv (cfg st) str0) as I.
-  pose proof (hist_holds st (cfg st) eq_refl V ops (init str0) 0 ltac:(lia) I) as H. simpl sstr in H. rewrite H.
+  intros V Ev. unfold case_ok. pose proof (init_inv (cfg st) str0 V) as I.
+  pose proof (hist_holds st _ ops _ 0 Ev ltac:(lia) I) as H. simpl sstr in H. simpl scfg in H. rewrite H.
   unfold obs_ok.
-  rewrite (bound_holds st (cfg st) 0 _ eq_refl V I), (nopanic_holds st (cfg st) 0 _ eq_refl I).
-  pose proof (fallback_holds st (cfg st) 0 _ eq_refl V I) as F. simpl sstr in F. rewrite F.
-  pose proof (inforce_holds st (cfg st) 0 _ eq_refl I) as G. simpl sstr in G. rewrite G.
+  pose proof (bound_holds st _ 0 _ I) as B. simpl scfg in B. rewrite B.
+  rewrite (nopanic_holds st _ 0 _ I).
+  pose proof (fallback_holds st _ 0 _ I) as F. simpl sstr in F. simpl scfg in F. rewrite F.
+  pose proof (inforce_holds st _ 0 _ I) as G. simpl sstr in G. rewrite G.
   reflexivity.
 Qed.
 
-Lemma run_inv st c : cfg st = c -> valid_cfg c ->
-  forall ops s maxrt, 0 <= maxrt -> Inv c maxrt s -> exists m, 0 <= m /\ Inv c m (run true st s ops).
+Lemma run_inv st k :
+  forall ops s maxrt, Forall (ev_ok k) ops -> 0 <= maxrt -> Inv k maxrt s ->
+  exists m, 0 <= m /\ Inv k m (run true true st s ops).
 Proof.
-  intros C V. induction ops as [|e r IH]; intros s maxrt Hm I; [exists maxrt; auto|].
-  simpl. pose proof (next_rt_ge maxrt e). apply (IH _ (next_rt maxrt e)); [lia|]. apply step_inv; auto.
+  induction ops as [|e r IH]; intros s maxrt Ev Hm I; [exists maxrt; auto|].
+  inversion Ev as [|? ? Ee Er]; subst.
+  simpl. pose proof (next_rt_ge maxrt e). apply (IH _ (next_rt maxrt e)); [assumption|lia|]. apply step_inv; auto.
 Qed.
 
-Lemma reach_inv st str0 ops : valid_cfg (cfg st) ->
-  exists m, 0 <= m /\ Inv (cfg st) m (run true st (init str0) ops).
-Proof. intros V. apply (run_inv st (cfg st) eq_refl V ops _ 0); [lia|apply init_inv]. Qed.
+Lemma reach_inv st str0 ops : valid_cfg (cfg st) -> Forall (ev_ok (ck (cfg st))) ops ->
+  exists m, 0 <= m /\ Inv (ck (cfg st)) m (run true true st (init (cfg st) str0) ops).
+Proof. intros V Ev. apply (run_inv st _ ops _ 0 Ev); [lia|apply init_inv; assumption]. Qed.
 
-(* the limiter a request meets is bounded, for every reachable state *)
-Lemma enforced_bounded st c maxrt s : cfg st = c -> valid_cfg c -> Inv c maxrt s ->
-  exists l, o_lim (observe true st s) = Some l /\ lim_bounded c l = true /\
+(* the limiter a request meets is bounded by the limits currently configured, for every reachable state *)
+Lemma enforced_bounded st k maxrt s : Inv k maxrt s ->
+  exists l, o_lim (observe true st s) = Some l /\ lim_bounded (scfg s) l = true /\
             (forall n, l = LMI n -> o_adm (observe true st s) <= n).
 Proof.
-  intros C V I. rewrite (observe_shape st c maxrt s C I). simpl.
+  intros I. pose proof I as (_ & V & _). rewrite (observe_shape st k maxrt s I). simpl.
   destruct (elig st s) eqn:E.
   - unfold elig in E. destruct (md st); try discriminate. destruct (cs st); try discriminate.
     apply andb_true_iff in E. destruct E as [_ E]. unfold has_inner in E.
@@ -697,76 +770,82 @@ Proof.
     + exists l. split; [reflexivity|]. split; [eapply remote_bounded; eauto|].
       intros n ->. apply admitted_le.
     + unfold remote_lim in R. destruct (rem s) as [w|]; [|discriminate]. destruct (rin w); discriminate.
-  - exists (local_lim c). split; [reflexivity|]. split.
-    + rewrite (local_lim_spec c V). unfold local_spec, lim_bounded, in_range, valid_cfg in *. destruct (ck c); lia.
+  - exists (local_lim (scfg s)). split; [reflexivity|]. split.
+    + rewrite (local_lim_spec _ V). unfold local_spec, lim_bounded, in_range, valid_cfg in *. destruct (ck (scfg s)); lia.
     + intros n ->. apply admitted_le.
 Qed.
 
-Lemma size_le_global st str0 ops : valid_cfg (cfg st) -> ck (cfg st) = KMI ->
-  let s := run true st (init str0) ops in
-  (exists n, o_lim (observe true st s) = Some (LMI n) /\ 0 <= n <= g1 (cfg st) /\ o_adm (observe true st s) <= g1 (cfg st))
-  /\ (forall l, remote_lim s = Some l -> exists n, l = LMI n /\ 0 <= n <= g1 (cfg st)).
+Lemma size_le_global st str0 ops : valid_cfg (cfg st) -> Forall (ev_ok (ck (cfg st))) ops -> ck (cfg st) = KMI ->
+  let s := run true true st (init (cfg st) str0) ops in
+  (exists n, o_lim (observe true st s) = Some (LMI n) /\ 0 <= n <= g1 (scfg s) /\ o_adm (observe true st s) <= g1 (scfg s))
+  /\ (forall l, remote_lim s = Some l -> exists n, l = LMI n /\ 0 <= n <= g1 (scfg s)).
 Proof.
-  intros V K s. destruct (reach_inv st str0 ops V) as (m & _ & I). fold s in I. split.
-  - destruct (enforced_bounded st (cfg st) m s eq_refl V I) as (l & L & B & A).
-    unfold lim_bounded, in_range in B. rewrite K in B. destruct l; try discriminate.
+  intros V Ev K s. destruct (reach_inv st str0 ops V Ev) as (m & _ & I). fold s in I.
+  pose proof I as (_ & _ & Ks & _). rewrite K in Ks. split.
+  - destruct (enforced_bounded st _ m s I) as (l & L & B & A).
+    unfold lim_bounded, in_range in B. rewrite Ks in B. destruct l; try discriminate.
     exists n. split; [assumption|]. specialize (A n eq_refl). lia.
-  - intros l R. pose proof (remote_bounded (cfg st) m s l V I R) as B.
-    unfold lim_bounded, in_range in B. rewrite K in B. destruct l; try discriminate. exists n. split; [reflexivity|lia].
+  - intros l R. pose proof (remote_bounded _ m s l I R) as B.
+    unfold lim_bounded, in_range in B. rewrite Ks in B. destruct l; try discriminate. exists n. split; [reflexivity|lia].
 Qed.
 
-Lemma tb_le_global st str0 ops : valid_cfg (cfg st) -> ck (cfg st) = KTB ->
-  let s := run true st (init str0) ops in
-  (exists q b, o_lim (observe true st s) = Some (LTB q b) /\ 0 <= q <= g1 (cfg st) /\ 0 <= b <= g2 (cfg st))
-  /\ (forall l, remote_lim s = Some l -> exists q b, l = LTB q b /\ 0 <= q <= g1 (cfg st) /\ 0 <= b <= g2 (cfg st)).
+Lemma tb_le_global st str0 ops : valid_cfg (cfg st) -> Forall (ev_ok (ck (cfg st))) ops -> ck (cfg st) = KTB ->
+  let s := run true true st (init (cfg st) str0) ops in
+  (exists q b, o_lim (observe true st s) = Some (LTB q b) /\ 0 <= q <= g1 (scfg s) /\ 0 <= b <= g2 (scfg s))
+  /\ (forall l, remote_lim s = Some l -> exists q b, l = LTB q b /\ 0 <= q <= g1 (scfg s) /\ 0 <= b <= g2 (scfg s)).
 Proof.
-  intros V K s. destruct (reach_inv st str0 ops V) as (m & _ & I). fold s in I. split.
-  - destruct (enforced_bounded st (cfg st) m s eq_refl V I) as (l & L & B & A).
-    unfold lim_bounded, in_range in B. rewrite K in B. destruct l; try discriminate.
+  intros V Ev K s. destruct (reach_inv st str0 ops V Ev) as (m & _ & I). fold s in I.
+  pose proof I as (_ & _ & Ks & _). rewrite K in Ks. split.
+  - destruct (enforced_bounded st _ m s I) as (l & L & B & A).
+    unfold lim_bounded, in_range in B. rewrite Ks in B. destruct l; try discriminate.
     exists q, b. split; [assumption|]. lia.
-  - intros l R. pose proof (remote_bounded (cfg st) m s l V I R) as B.
-    unfold lim_bounded, in_range in B. rewrite K in B. destruct l; try discriminate. exists q, b. split; [reflexivity|lia].
+  - intros l R. pose proof (remote_bounded _ m s l I R) as B.
+    unfold lim_bounded, in_range in B. rewrite Ks in B. destruct l; try discriminate. exists q, b. split; [reflexivity|lia].
 Qed.
 
 (* fallback: any missing condition selects the local limiter with the local limit *)
-Lemma fallback st str0 ops : valid_cfg (cfg st) ->
-  let s := run true st (init str0) ops in
+Lemma fallback st str0 ops : valid_cfg (cfg st) -> Forall (ev_ok (ck (cfg st))) ops ->
+  let s := run true true st (init (cfg st) str0) ops in
   (md st <> MRemote \/ enable_global (sstr s) = false \/ cs st <> CSOk \/ hready s = false \/ has_inner s = false) ->
-  o_sel (observe true st s) = SelLocal /\ o_lim (observe true st s) = Some (local_spec (cfg st)).
+  o_sel (observe true st s) = SelLocal /\ o_lim (observe true st s) = Some (local_spec (scfg s)).
 Proof.
-  intros V s H. destruct (reach_inv st str0 ops V) as (m & _ & I). fold s in I.
-  rewrite (observe_shape st (cfg st) m s eq_refl I). simpl.
+  intros V Ev s H. destruct (reach_inv st str0 ops V Ev) as (m & _ & I). fold s in I.
+  pose proof I as (_ & Vs & _).
+  rewrite (observe_shape st _ m s I). simpl.
   assert (E : elig st s = false).
   { unfold elig. destruct (md st) eqn:M; try reflexivity. destruct (cs st) eqn:Cs; try reflexivity.
     destruct H as [H|[H|[H|[H|H]]]]; try congruence; rewrite H; simpl; try reflexivity.
     - destruct (enable_global (sstr s)); reflexivity.
     - destruct (enable_global (sstr s)); destruct (hready s); reflexivity. }
-  rewrite E, (local_lim_spec _ V). auto.
+  rewrite E, (local_lim_spec _ Vs). auto.
 Qed.
 
 (* readiness hysteresis: failing heartbeats for at least 5 s make the server not ready, one good heartbeat makes it ready *)
-Lemma hage_step st s e : 0 <= hage s -> 0 <= hage (step true st s e).
+Lemma hage_step st s e : 0 <= hage s -> 0 <= hage (step true true st s e).
 Proof.
   intros H. unfold step. destruct (crashed s); [assumption|].
-  destruct e as [it| |r rt|ok|sec|x|]; simpl.
-  - destruct (enable_global (sstr s)); [|assumption]. unfold apply_sync. destruct (rw_sync _ _ _ _); assumption.
-  - destruct (strategy_eqb (sstr s) SCount); [|assumption]. unfold apply_sync. destruct (rw_sync _ _ _ _); assumption.
+  destruct e as [it| |r rt|ok|sec|x|a b g h|]; simpl.
+  - destruct (enable_global (sstr s)); [|assumption]. unfold apply_sync. destruct (rw_sync _ _ _ _ _); assumption.
+  - destruct (strategy_eqb (sstr s) SCount); [|assumption]. unfold apply_sync. destruct (rw_sync _ _ _ _ _); assumption.
   - destruct (rem s) as [w|]; [|assumption]. destruct (rin w); [|assumption]. destruct (set_limit _ _ _ _ _); assumption.
   - unfold heartbeat. simpl. destruct (negb _); lia.
   - destruct (sec <? 0) eqn:E; lia.
   - destruct (strategy_eqb x (sstr s)); assumption.
+  - destruct (config_eqb _ _); [assumption|]. destruct (enable_global (sstr s)); simpl; [|assumption].
+    destruct (rem s) as [w|]; [|assumption]. destruct (rin w); [|assumption]. destruct (rcfg w); [|assumption].
+    destruct (rw_sync _ _ _ _ _); assumption.
   - destruct (enable_global (sstr s)); [|assumption]. destruct (rem s); assumption.
 Qed.
 
-Lemma hage_run st ops : forall s, 0 <= hage s -> 0 <= hage (run true st s ops).
+Lemma hage_run st ops : forall s, 0 <= hage s -> 0 <= hage (run true true st s ops).
 Proof. induction ops as [|e r IH]; intros s H; [assumption|]. simpl. apply IH. apply hage_step. assumption. Qed.
 
 Lemma hb_sequence st s sec : crashed s = false -> 0 <= hage s -> 5 <= sec ->
-  hready (step true st (step true st (step true st s (EHb false)) (EElapse sec)) (EHb false)) = false.
+  hready (step true true st (step true true st (step true true st s (EHb false)) (EElapse sec)) (EHb false)) = false.
 Proof.
   intros Cr H Hs.
-  assert (C1 : crashed (step true st s (EHb false)) = false) by (unfold step; rewrite Cr; exact Cr).
-  set (s1 := step true st s (EHb false)) in *.
+  assert (C1 : crashed (step true true st s (EHb false)) = false) by (unfold step; rewrite Cr; exact Cr).
+  set (s1 := step true true st s (EHb false)) in *.
   assert (L1 : hlast s1 = false) by (subst s1; unfold step; rewrite Cr; reflexivity).
   assert (A1 : 0 <= hage s1) by (subst s1; apply hage_step; assumption).
   unfold step at 2. rewrite C1.
@@ -775,24 +854,27 @@ Proof.
   destruct (sec <? 0) eqn:E; [lia|]. destruct (5 <=? hage s1 + sec) eqn:E2; [reflexivity|lia].
 Qed.
 
-Lemma heartbeat_fallback st str0 ops sec : valid_cfg (cfg st) -> 5 <= sec ->
-  let s := run true st (init str0) (ops ++ [EHb false; EElapse sec; EHb false]) in
-  is_ready st s = false /\ o_sel (observe true st s) = SelLocal /\ o_lim (observe true st s) = Some (local_spec (cfg st)).
+Lemma Forall_app_ok k ops ops' : Forall (ev_ok k) ops -> Forall (ev_ok k) ops' -> Forall (ev_ok k) (ops ++ ops').
+Proof. intros A B. apply Forall_app. split; assumption. Qed.
+
+Lemma heartbeat_fallback st str0 ops sec : valid_cfg (cfg st) -> Forall (ev_ok (ck (cfg st))) ops -> 5 <= sec ->
+  let s := run true true st (init (cfg st) str0) (ops ++ [EHb false; EElapse sec; EHb false]) in
+  is_ready st s = false /\ o_sel (observe true st s) = SelLocal /\ o_lim (observe true st s) = Some (local_spec (scfg s)).
 Proof.
-  intros V Hs s.
+  intros V Ev Hs s.
   assert (R : hready s = false).
-  { subst s. unfold run. rewrite fold_left_app. fold (run true st (init str0) ops).
-    destruct (reach_inv st str0 ops V) as (m & _ & (I1 & _)).
+  { subst s. unfold run. rewrite fold_left_app. fold (run true true st (init (cfg st) str0) ops).
+    destruct (reach_inv st str0 ops V Ev) as (m & _ & (I1 & _)).
     simpl. apply hb_sequence; auto. apply hage_run. simpl. lia. }
   split; [unfold is_ready; destruct (cs st); auto|].
-  apply fallback; auto.
+  apply fallback; auto. apply Forall_app_ok; [assumption|]. repeat constructor.
 Qed.
 
-Lemma heartbeat_ready st str0 ops : valid_cfg (cfg st) ->
-  hready (run true st (init str0) (ops ++ [EHb true])) = true.
+Lemma heartbeat_ready st str0 ops : valid_cfg (cfg st) -> Forall (ev_ok (ck (cfg st))) ops ->
+  hready (run true true st (init (cfg st) str0) (ops ++ [EHb true])) = true.
 Proof.
-  intros V. unfold run. rewrite fold_left_app. fold (run true st (init str0) ops).
-  destruct (reach_inv st str0 ops V) as (m & _ & (I1 & _)). simpl. unfold step. rewrite I1.
+  intros V Ev. unfold run. rewrite fold_left_app. fold (run true true st (init (cfg st) str0) ops).
+  destruct (reach_inv st str0 ops V Ev) as (m & _ & (I1 & _)). simpl. unfold step. rewrite I1.
   unfold heartbeat. simpl. destruct (hready _); reflexivity.
 Qed.
 
@@ -804,65 +886,65 @@ Proof.
   - apply andb_true_iff in H. destruct H. f_equal; lia.
 Qed.
 
-Lemma observe_selected st c maxrt s w i : cfg st = c -> Inv c maxrt s ->
+Lemma observe_selected st k maxrt s w i : Inv k maxrt s ->
   md st = MRemote -> cs st = CSOk -> hready s = true -> enable_global (sstr s) = true ->
   rem s = Some w -> rin w = Some i ->
   o_sel (observe true st s) = SelRemote /\ o_lim (observe true st s) = Some (il i).
 Proof.
-  intros C I M Cs R G Rm Ri. rewrite (observe_shape st c maxrt s C I). simpl.
+  intros I M Cs R G Rm Ri. rewrite (observe_shape st k maxrt s I). simpl.
   assert (E : elig st s = true) by (unfold elig, has_inner; rewrite M, Cs, R, G, Rm, Ri; reflexivity).
   rewrite E. unfold remote_lim. rewrite Rm, Ri. auto.
 Qed.
 
-Lemma count_state st c s w i i' r rt : cfg st = c -> crashed s = false ->
-  rem s = Some w -> rin w = Some i -> set_limit true c i r rt = Some i' ->
-  step true st s (ECount r rt) = set_rem s (Some {| rin := Some i'; rcfg := rcfg w |}).
-Proof. intros C I1 R Ri E. unfold step. rewrite I1, C, R, Ri, E. reflexivity. Qed.
+Lemma count_state st s w i i' r rt : crashed s = false ->
+  rem s = Some w -> rin w = Some i -> set_limit true (scfg s) i r rt = Some i' ->
+  step true true st s (ECount r rt) = set_rem s (Some {| rin := Some i'; rcfg := rcfg w |}).
+Proof. intros I1 R Ri E. unfold step. rewrite I1, R, Ri, E. reflexivity. Qed.
 
 (* a global-count error reply on an available wrapper synced from the schema's own global section:
    the limiter falls back to max(observed, local) within the global limit — never below the local limit *)
-Lemma failing_bounds st str0 ops mx rate rt w i : valid_cfg (cfg st) ->
-  let c := cfg st in let s := run true st (init str0) ops in
+Lemma failing_bounds st str0 ops mx rate rt w i : valid_cfg (cfg st) -> Forall (ev_ok (ck (cfg st))) ops ->
+  let s := run true true st (init (cfg st) str0) ops in let c := scfg s in
   rem s = Some w -> rin w = Some i -> iw i <> WEmpty -> iun i = false ->
   (0 <? rt) && (rt <=? ilast i) = false ->
   rcfg w = Some {| idet := global_detail c; istr := SCount |} ->
-  exists i', rem (step true st s (ECount (RErr mx rate) rt)) = Some {| rin := Some i'; rcfg := rcfg w |} /\
+  exists i', rem (step true true st s (ECount (RErr mx rate) rt)) = Some {| rin := Some i'; rcfg := rcfg w |} /\
              iun i' = true /\
              match ck c with
              | KMI => exists n, il i' = LMI n /\ l1 c <= n <= g1 c
              | KTB => exists q b, il i' = LTB q b /\ l1 c <= q <= g1 c /\ 0 <= b <= g2 c
              end.
 Proof.
-  intros V c s Rm Ri W U F Rc. destruct (reach_inv st str0 ops V) as (m & _ & I). fold s c in I.
-  pose proof I as (I1 & _ & I3). rewrite Rm in I3. unfold wrap_ok in I3. rewrite Ri in I3.
+  intros V Ev s c Rm Ri W U F Rc. destruct (reach_inv st str0 ops V Ev) as (m & _ & I). fold s in I.
+  pose proof I as (I1 & Vs & _ & _ & I3). fold c in Vs. rewrite Rm in I3. unfold wrap_ok in I3. rewrite Ri in I3. fold c in I3.
   destruct I3 as (it & Rc' & Hit & Hi). rewrite Rc in Rc'. inversion Rc'; subst it; clear Rc'.
   pose proof Hi as Hi0. unfold inner_ok in Hi0. unfold global_detail in *.
   destruct (iw i) eqn:Wi; [congruence| |].
   - destruct Hi0 as (_ & K & _). rewrite K in *.
-    destruct (set_limit_mi_err c m i _ (g1 c) mx rate rt V Hit Hi Wi U F eq_refl) as (i' & E & _ & U' & L').
-    exists i'. rewrite (count_state st c s w i i' _ rt eq_refl I1 Rm Ri E). simpl.
+    destruct (set_limit_mi_err c m i _ (g1 c) mx rate rt Vs Hit ltac:(rewrite K; exact Hi) Wi U F eq_refl) as (i' & E & _ & U' & L').
+    exists i'. rewrite (count_state st s w i i' _ rt I1 Rm Ri E). simpl.
     split; [reflexivity|]. split; [assumption|]. eexists. split; [exact L'|].
-    unfold valid_cfg in V. fold c in V. rewrite K in V. unfold zmin, zmax. zcases; lia.
+    unfold valid_cfg in Vs. rewrite K in Vs. unfold zmin, zmax. zcases; lia.
   - destruct Hi0 as (_ & K & _). rewrite K in *.
-    destruct (set_limit_tb_err c m i _ (g1 c) (g2 c) mx rate rt V Hit Hi Wi U eq_refl) as (i' & E & _ & U' & L').
-    exists i'. rewrite (count_state st c s w i i' _ rt eq_refl I1 Rm Ri E). simpl.
+    destruct (set_limit_tb_err c m i _ (g1 c) (g2 c) mx rate rt Vs Hit ltac:(rewrite K; exact Hi) Wi U eq_refl) as (i' & E & _ & U' & L').
+    exists i'. rewrite (count_state st s w i i' _ rt I1 Rm Ri E). simpl.
     split; [reflexivity|]. split; [assumption|]. eexists. eexists. split; [exact L'|].
-    unfold valid_cfg in V. fold c in V. rewrite K in V. unfold zmin, zmax. zcases; lia.
+    unfold valid_cfg in Vs. rewrite K in Vs. unfold zmin, zmax. zcases; lia.
 Qed.
 
 (* a server quota of the schema's type becomes the limiter's size, bounded by the global limit,
    and is what a request meets as soon as the server is ready *)
-Lemma recovery_allocate st str0 ops it l : valid_cfg (cfg st) ->
-  let c := cfg st in let s := run true st (init str0) ops in
+Lemma recovery_allocate st str0 ops it l : valid_cfg (cfg st) -> Forall (ev_ok (ck (cfg st))) ops ->
+  let s := run true true st (init (cfg st) str0) ops in let c := scfg s in
   md st = MRemote -> cs st = CSOk -> hready s = true -> enable_global (sstr s) = true ->
   istr it <> SCount -> granted c (idet it) = Some l ->
-  let s' := step true st s (EQuota it) in
+  let s' := step true true st s (EQuota it) in
   o_sel (observe true st s') = SelRemote /\ o_lim (observe true st s') = Some l /\ remote_lim s' = Some l.
 Proof.
-  intros V c s M Cs R G S Gr s'. destruct (reach_inv st str0 ops V) as (m & Hm & I). fold s c in I.
-  pose proof (step_inv st c m s (EQuota it) eq_refl V Hm I) as I'. fold s' in I'. simpl in I'.
-  pose proof (recovery_holds st c m s (EQuota it) eq_refl V Hm I) as H. fold s' in H.
-  unfold recovery_ok in H. destruct (observe_rem_eq st c _ _ eq_refl I') as [Er Ep]. rewrite Ep in H.
+  intros V Ev s c M Cs R G S Gr s'. destruct (reach_inv st str0 ops V Ev) as (m & Hm & I). fold s in I.
+  pose proof (step_inv st _ m s (EQuota it) Hm Logic.I I) as I'. fold s' in I'. simpl in I'.
+  pose proof (recovery_holds st _ m s (EQuota it) Hm Logic.I I) as H. fold s' c in H.
+  unfold recovery_ok in H. destruct (observe_rem_eq st _ _ _ I') as [Er Ep]. rewrite Ep in H.
   assert (G' : global_strategy (sstr s) = true) by (destruct (sstr s); auto).
   rewrite G' in H.
   assert (S' : strategy_eqb (istr it) SCount = false).
@@ -875,19 +957,19 @@ Proof.
   assert (Ss : sstr s' = sstr s).
   { subst s'. rewrite sstr_step. destruct I as (I1 & _). rewrite I1. reflexivity. }
   assert (Hr : hready s' = hready s).
-  { subst s'. unfold step. destruct I as (I1 & _). rewrite I1, G. unfold apply_sync. destruct (rw_sync _ _ _ _); reflexivity. }
-  destruct (observe_selected st c m s' w' i' eq_refl I' M Cs ltac:(congruence) ltac:(congruence) Rm' Ri') as [A B].
+  { subst s'. unfold step. destruct I as (I1 & _). rewrite I1, G. unfold apply_sync. destruct (rw_sync _ _ _ _ _); reflexivity. }
+  destruct (observe_selected st _ m s' w' i' I' M Cs ltac:(congruence) ltac:(congruence) Rm' Ri') as [A B].
   split; [assumption|]. split; [congruence|]. unfold remote_lim. rewrite Rm', Ri'. congruence.
 Qed.
 
 (* an accepted global-count reply that is not stale ends the unavailable state; the granted limit,
    raised to the burst reserve and bounded by the granted maximum, is the size (token bucket: the
    configured global rate is restored) and it is what a request meets when the server is ready *)
-Lemma recovery_count st str0 ops limit rt w i it : valid_cfg (cfg st) ->
-  let c := cfg st in let s := run true st (init str0) ops in
+Lemma recovery_count st str0 ops limit rt w i it : valid_cfg (cfg st) -> Forall (ev_ok (ck (cfg st))) ops ->
+  let s := run true true st (init (cfg st) str0) ops in
   rem s = Some w -> rin w = Some i -> iw i <> WEmpty -> rcfg w = Some it ->
   (0 <? rt) && (rt <=? ilast i) = false ->
-  let s' := step true st s (ECount (ROk true limit) rt) in
+  let s' := step true true st s (ECount (ROk true limit) rt) in
   exists i', rem s' = Some {| rin := Some i'; rcfg := Some it |} /\ iun i' = false /\
              match idet it with
              | DMI m => il i' = LMI (zmin (zmax limit (reserve_of true m)) m)
@@ -897,25 +979,48 @@ Lemma recovery_count st str0 ops limit rt w i it : valid_cfg (cfg st) ->
              (md st = MRemote -> cs st = CSOk -> hready s = true -> enable_global (sstr s) = true ->
               o_sel (observe true st s') = SelRemote /\ o_lim (observe true st s') = Some (il i')).
 Proof.
-  intros V c s Rm Ri W Rc F s'. destruct (reach_inv st str0 ops V) as (m & Hm & I). fold s c in I.
-  pose proof (step_inv st c m s (ECount (ROk true limit) rt) eq_refl V Hm I) as I'. fold s' in I'.
-  pose proof I as (I1 & _ & I3). rewrite Rm in I3. unfold wrap_ok in I3. rewrite Ri in I3.
+  intros V Ev s Rm Ri W Rc F s'. destruct (reach_inv st str0 ops V Ev) as (m & Hm & I). fold s in I.
+  pose proof (step_inv st _ m s (ECount (ROk true limit) rt) Hm Logic.I I) as I'. fold s' in I'.
+  pose proof I as (I1 & Vs & _ & _ & I3). rewrite Rm in I3. unfold wrap_ok in I3. rewrite Ri in I3.
   destruct I3 as (it' & Rc' & Hit & Hi). rewrite Rc in Rc'. inversion Rc'; subst it'; clear Rc'.
   assert (Sel : forall i', s' = set_rem s (Some {| rin := Some i'; rcfg := rcfg w |}) ->
                 md st = MRemote -> cs st = CSOk -> hready s = true -> enable_global (sstr s) = true ->
                 o_sel (observe true st s') = SelRemote /\ o_lim (observe true st s') = Some (il i')).
   { intros i' E M Cs R G.
-    apply (observe_selected st c _ s' {| rin := Some i'; rcfg := rcfg w |} i' eq_refl I' M Cs); try rewrite E; simpl; auto. }
+    apply (observe_selected st _ _ s' {| rin := Some i'; rcfg := rcfg w |} i' I' M Cs); try rewrite E; simpl; auto. }
   pose proof Hi as Hi0. unfold inner_ok in Hi0.
   destruct (iw i) eqn:Wi; [congruence| |].
   - destruct Hi0 as (_ & _ & mm & n & D & _).
-    destruct (set_limit_mi_accept c m i it mm limit rt V Hit Hi Wi F D) as (i' & E & _ & U' & _ & L').
-    pose proof (count_state st c s w i i' _ rt eq_refl I1 Rm Ri E) as St. fold s' in St.
+    destruct (set_limit_mi_accept (scfg s) m i it mm limit rt Vs Hit Hi Wi F D) as (i' & E & _ & U' & _ & L').
+    pose proof (count_state st s w i i' _ rt I1 Rm Ri E) as St. fold s' in St.
     exists i'. split; [rewrite St; simpl; rewrite Rc; reflexivity|]. split; [assumption|].
     split; [rewrite D; assumption|]. apply Sel; assumption.
   - destruct Hi0 as (_ & _ & _ & q & b & q' & b' & D & _).
-    destruct (set_limit_tb_accept c m i it q b limit rt V Hit Hi Wi D) as (i' & E & _ & U' & L').
-    pose proof (count_state st c s w i i' _ rt eq_refl I1 Rm Ri E) as St. fold s' in St.
+    destruct (set_limit_tb_accept (scfg s) m i it q b limit rt Vs Hit Hi Wi D) as (i' & E & _ & U' & L').
+    pose proof (count_state st s w i i' _ rt I1 Rm Ri E) as St. fold s' in St.
     exists i'. split; [rewrite St; simpl; rewrite Rc; reflexivity|]. split; [assumption|].
     split; [rewrite D; assumption|]. apply Sel; assumption.
+Qed.
+
+(* a schema update takes effect at once: right after it, the limiter a request meets and the remote
+   limiter are within the NEW limits — no window until the next answer of the limiter server *)
+Lemma schema_update_bounds st str0 ops a b g h : valid_cfg (cfg st) -> Forall (ev_ok (ck (cfg st))) ops ->
+  let c' := {| ck := ck (cfg st); l1 := a; l2 := b; g1 := g; g2 := h |} in
+  valid_cfg c' ->
+  let s' := run true true st (init (cfg st) str0) (ops ++ [ESchema a b g h]) in
+  scfg s' = c' /\
+  (exists l, o_lim (observe true st s') = Some l /\ lim_bounded c' l = true) /\
+  (forall l, remote_lim s' = Some l -> lim_bounded c' l = true).
+Proof.
+  intros V Ev c' V' s'.
+  assert (Ev' : Forall (ev_ok (ck (cfg st))) (ops ++ [ESchema a b g h])).
+  { apply Forall_app_ok; [assumption|]. constructor; [exact V'|constructor]. }
+  destruct (reach_inv st str0 _ V Ev') as (m & _ & I). fold s' in I.
+  assert (C : scfg s' = c').
+  { subst s'. unfold run. rewrite fold_left_app. fold (run true true st (init (cfg st) str0) ops). simpl.
+    destruct (reach_inv st str0 ops V Ev) as (m0 & _ & (I1 & _ & K & _)).
+    rewrite (scfg_step _ _ _ I1). simpl. rewrite K. reflexivity. }
+  split; [exact C|]. rewrite <- C. split.
+  - destruct (enforced_bounded st _ m s' I) as (l & L & B & _). exists l. auto.
+  - intros l R. eapply remote_bounded; eauto.
 Qed.
